@@ -219,6 +219,15 @@ def ser_rules(ctx, flavours):
                             in_loop = [pbi for pbi in sp_ if any(pbi in body_ for body_ in sloops_.values())]
                             if len(sp_) != 1 or len(in_loop) != 1:
                                 why2.append('%s pushes %d times (%d in its loop): every half-edge it reads must be listed exactly once' % (sb_['name'], len(sp_), len(in_loop)))
+                            else:
+                                # the entry it reads next is the one at index len(list built so far): 0, 1, 2, .. without a gap or shift
+                                spv_ = F.prov(sb_)
+                                vec_ = deep_unwrap(spv_.of_operand(sb_['blocks'][sp_[0]]['term']['args'][0]))
+                                for gbi_, gt_ in calls_in(sb_, lambda t_: t_.get('local') and t_.get('res') in M.methods and len(t_['args']) == 2):
+                                    ix_ = deep_unwrap(spv_.of_operand(gt_['args'][1]))
+                                    okix = isinstance(ix_, tuple) and ix_ and ix_[0] == 'call' and ix_[1].endswith('::len') and deep_unwrap(ix_[2][0]) == vec_
+                                    if F.types[sb_['locals'][gt_['args'][1]['pl']['l']]].get('s') == 'usize' and not okix:
+                                        why2.append('%s reads entry %s, expected the entry at index len(list built so far)' % (sb_['name'], pretty(ix_)))
                 if fp != {M.OUT}:
                     why2.append('per member the writer enumerates lists %s: every edge is stored as one OUT half, so only {OUT} lists each edge exactly once' %
                                 (sorted(M.role(x) for x in fp) if fp else '?'))
